@@ -92,6 +92,12 @@ theorem decodeDims_render (vars : List RVar) (h : wfDesignB vars = true) :
   simp [decodeDims, fromDicts_render vars h, h3, groupVars_typed]
 
 
+/-- number of valid elements of the first dimension (`len(self.dimensions[0].valid_elements)`) -/
+def headValidCount (dims : List Dim) : R Nat :=
+  match dims with
+  | [] => .error .indexError
+  | d0 :: _ => d0.validIdxs.map List.length
+
 theorem shape_of_missingFlags {x : Dim} {m : List Bool} (h : missingFlags x = .ok m) :
     x.shape = .ok m.length ∧ x.validIdxs = .ok (validIdxs m) := by
   unfold missingFlags at h
